@@ -274,7 +274,8 @@ QUIRKS = {0: "OTLP list-valued attributes yield no tag rows (fixed defect otlp-l
           2: "NDJSON framing keeps decoder state across lines / stores no payload (fixed defect zipkin-ndjson-state)",
           3: "read path prefers peer.service and rewrites service.name (fixed defect otlp-read-peer-service)",
           4: "read path takes a Zipkin parent only from a 16-digit payload parentId (fixed defect zipkin-short-parent-id)",
-          5: "Zipkin microseconds * 1000 wrap around int64 instead of being refused (fixed defect zipkin-time-overflow)"}
+          5: "Zipkin microseconds * 1000 wrap around int64 instead of being refused (fixed defect zipkin-time-overflow)",
+          6: "an OTLP export with a resource group lacking the resource message is refused as a whole (fixed defect otlp-group-without-resource)"}
 
 
 SEG = {0: "one Read over the whole body", 1: "one byte per Read", 2: "1..1500 bytes per Read", 3: "1..64 bytes per Read"}
